@@ -11,6 +11,9 @@ PA_LIBS = ['src/library/prog_args/*.cpp', 'src/library/prog_args/detail/*.cpp', 
 
 def build(name):
     d = workdir('e2mt', name)
+    for stale in ('native_tsan', 'native_tsan.built'):          # the native build is redone from the current tree whenever it is needed
+        if os.path.exists(os.path.join(d, stale)):
+            os.remove(os.path.join(d, stale))
     srcs = [os.path.join(HERE, 'w_mt.cpp'), os.path.join(ENGINE, 'rt_support.cpp')]
     for p in PA_LIBS:
         srcs += [f for f in sorted(glob.glob(os.path.join(REPO, p))) if 'print_version' not in f]
@@ -59,6 +62,9 @@ def candidates(irm, entry, whiches):
 
         def rmw_failed(self, eng, st):
             pass
+
+        def __getattr__(self, name):          # lock / thread events etc. are of no interest in the sequential run
+            return lambda *a, **k: None
     for w in whiches:
         eng = irsym.Engine(irm, timeout=300); eng.mt = Trace()
         eng.explore(entry, lambda e, s: [w])
@@ -71,8 +77,13 @@ def main(prop, tier):
     replay_dir = os.path.join(os.environ.get('VERIF_REPLAY_DIR') or os.path.join(VERIF, 'replay'), prop)
     os.makedirs(replay_dir, exist_ok=True)
     if prop == 'C20':
-        runs = [('singleton/2 threads', 'hx_singleton', [2], [g for g in irm.gobj if 'Singleton' in g and 'mpObject' in g and '_GLOBAL__N_13Obj' in g and not g.startswith('_ZGV')], False),
-                ('singleton/3 threads', 'hx_singleton', [3], [g for g in irm.gobj if 'Singleton' in g and 'mpObject' in g and '_GLOBAL__N_13Obj' in g and not g.startswith('_ZGV')], False),
+        # every writable static written by an access (mpObject and whatever else the template uses) is shared state
+        named = [g for g in irm.gobj if 'Singleton' in g and 'mpObject' in g and '_GLOBAL__N_13Obj' in g and not g.startswith('_ZGV')]
+        scand = candidates(irm, 'hx_singleton_seq', [0])
+        sshared = sorted(set(named) | set(k for k in scand if not k.startswith('_ZN12_GLOBAL__N_1') and k in irm.gobj))
+        rep.extra['static_state_written_by_a_singleton_access'] = demangle(sshared)
+        runs = [('singleton/2 threads', 'hx_singleton', [2], sshared, False),
+                ('singleton/3 threads', 'hx_singleton', [3], sshared, False),
                 ('managed_thread/worker+observer', 'hx_managed', [0], [], False)]
         if tier == 'quick':
             runs = [runs[0], runs[2]]
